@@ -8,13 +8,13 @@ CHECK = {
                   "get_restart_writer/RestartWriter are executed with rename, fopen/open, write/writev, fclose and unlink "
                   "interposed; the directory after every dump is compared with a reference model (deque of payload ids) and "
                   "the dump is re-executed once per recorded operation (plus a torn variant of every write) in a child that "
-                  "is killed there; the parent then reads every file back through the real RestartReader. The set of crash "
+                  "is killed there; the parent then reads every file back through the real RestartReader, and a fresh manager (new process) takes 3 (quick) / max(3,B+2) (thorough) further dumps in the directory the crash left, each of which must succeed and keep the rotation (reference model restarted from the files on disk, gaps closed). The set of crash "
                   "points of a dump is finite and every one is executed, so fault enumeration is the natural level.",
     "level_note": "A kill is modelled as process death between (or in the middle of) system calls with the kernel's view of "
                   "the files surviving (no power loss / no reordering of metadata and data on the disk, no fsync semantics). "
                   "Payloads are 12 KB so that the stream buffer is flushed several times during a dump.",
     "quick_deadline": 90,
-    "thorough_deadline": 600,
+    "thorough_deadline": 900,
     "parts": [{"name": "restart", "bin": "c14_restart"}],
     "assumptions": [
         "process death only: files keep what the kernel had accepted at the moment of the kill (no power failure, no fsync modelling)",
